@@ -4,6 +4,7 @@
 -/
 import Lcapy.Spec.Fourier
 import Lcapy.Model.Fourier
+import Lcapy.Spec.Signal
 import Mathlib.Algebra.Order.Field.Rat
 import Mathlib.Algebra.Order.Field.Basic
 import Mathlib.Tactic.FieldSimp
@@ -541,6 +542,104 @@ theorem inverse_forward_trap (pi : Rat) (t : Term) (ha : t.a ≠ 0) (hk : (∃ a
   · rw [ift_ft_single pi _ ha 1 1 (.trap al) rfl rfl]
     simp only [List.map_cons, List.map_nil, List.cons.injEq, and_true, CQ.mul_one']
     exact canon_reflect_even c ph th _ a b ha rfl
+
+
+end Lcapy.Fourier
+
+namespace Lcapy.Fourier
+set_option linter.unusedSimpArgs false
+
+/-- forward direction: the value of a structural row does not depend on `useSf` -/
+theorem toTerm_fwd_useSf (pi : Rat) (g : GTerm) : GTerm.toTerm pi false { g with useSf := true } = GTerm.toTerm pi false g := by
+  simp [GTerm.toTerm, GTerm.coef, GTerm.scale]
+
+/-- the second spec table `pairG` (structural form, used by the decidable table checks) IS the table `ftKind` that defines `ft` -/
+theorem pairG_is_ftKind (pi : Rat) (k : Kind) (l : List GTerm) (h : pairG k = some l) :
+    entryE pi false l = (ftKind pi k).map fun p => ⟨p.q, 0, 0, p.k, p.s, 0⟩ := by
+  cases k with
+  | pw n =>
+    match n, h with
+    | 1, h =>
+      simp only [pairG, Option.some.injEq] at h; subst h
+      simp [entryE, GTerm.toTerm, GTerm.coef, GTerm.scale, ftKind, zpow, CQ.smul, CQ.npow, CQ.one_mul', CQ.I, CQ.ofRat]
+      ext <;> simp [CQ.mul_re, CQ.mul_im] <;> ring
+    | 2, h =>
+      simp only [pairG, Option.some.injEq] at h; subst h
+      simp [entryE, GTerm.toTerm, GTerm.coef, GTerm.scale, ftKind, zpow, CQ.smul, CQ.npow, CQ.one_mul', CQ.I, CQ.ofRat]
+      ext <;> simp [CQ.mul_re, CQ.mul_im] <;> ring
+    | 0, h => simp [pairG] at h
+    | n + 3, h => simp [pairG] at h
+  | one => simp [pairG] at h
+  | delta n => simp [pairG] at h
+  | gauss => simp [pairG] at h
+  | expu k al => simp [pairG] at h
+  | cpole n al => simp [pairG] at h
+  | trap al => simp [pairG] at h
+  | sincp al => simp [pairG] at h
+  | _ =>
+    simp only [pairG, Option.some.injEq] at h; subst h
+    simp [entryE, GTerm.toTerm, GTerm.coef, GTerm.scale, ftKind, zpow, CQ.smul, CQ.ofRat, j2pi]
+    all_goals (try (constructor <;> (try ext) <;> simp <;> ring))
+    all_goals (try ring)
+
+
+/-- a generated row equals, term by term and in order, the `pairG` row of its atom (the forward value ignores `useSf`) -/
+def entryForwardExact (e : GEntry) : Bool :=
+  match pairG e.kind with
+  | none => false
+  | some l => e.terms.map (fun g => { g with useSf := true }) == l.map (fun g => { g with useSf := true })
+
+theorem entryE_fwd_useSf (pi : Rat) (l : List GTerm) :
+    entryE pi false (l.map (fun g => { g with useSf := true })) = entryE pi false l := by
+  simp only [entryE, List.map_map]
+  apply List.map_congr_left
+  intro g _
+  exact toTerm_fwd_useSf pi g
+
+/-- … hence it is the row of `ftKind`, the table that DEFINES the spec transform `ft` -/
+theorem table_row_is_ftKind (pi : Rat) (e : GEntry) (h : entryForwardExact e = true) :
+    entryE pi false e.terms = (ftKind pi e.kind).map fun p => ⟨p.q, 0, 0, p.k, p.s, 0⟩ := by
+  unfold entryForwardExact at h
+  cases hp : pairG e.kind with
+  | none => simp [hp] at h
+  | some l =>
+    simp only [hp] at h
+    have heq := eq_of_beq h
+    rw [← entryE_fwd_useSf pi e.terms, heq, entryE_fwd_useSf pi l]
+    exact pairG_is_ftKind pi e.kind l hp
+
+theorem lookup_mem (k : Kind) (alt : Nat) (e : GEntry) (h : Model.lookup k alt = some e) : e ∈ Gen.table ∧ e.kind = k := by
+  unfold Model.lookup at h
+  have hm : e ∈ Gen.table.filter (fun e => e.kind == k) := List.mem_of_getElem? h
+  rw [List.mem_filter] at hm
+  exact ⟨hm.1, eq_of_beq hm.2⟩
+
+
+end Lcapy.Fourier
+
+namespace Lcapy.Fourier
+set_option linter.unusedSimpArgs false
+
+/-- `Σ c·t^k e^{−αt}u(t)` as a formal causal signal of C09's specification (Spec/Signal.lean: `ep c k p d = c (t−d)^k/k! e^{p(t−d)} u(t−d)`) -/
+def EPTerm.toLaplace (p : EPTerm) : Lcapy.Laplace.Term CQ := .ep (p.c * CQ.ofRat (fact p.k)) p.k (-p.al) 0
+
+theorem pw_eq_npow (x : CQ) : ∀ n : Nat, Lcapy.Laplace.pw x n = x.npow n
+  | 0 => rfl
+  | n + 1 => by simp [Lcapy.Laplace.pw, CQ.npow, pw_eq_npow x n]
+
+theorem CQ.sub_neg' (x y : CQ) : x - (-y) = x + y := by
+  ext <;> show _ - -_ = _ + _ <;> ring
+
+/-- the driver's `laplaceAt` is C09's formal unilateral transform `L` of the same signal -/
+theorem laplaceAt_is_L (s : CQ) : ∀ x : List EPTerm,
+    laplaceAt s x = Lcapy.Laplace.L (fun _ => (1 : CQ)) (x.map EPTerm.toLaplace) s
+  | [] => rfl
+  | p :: x => by
+      have ih := laplaceAt_is_L s x
+      simp only [laplaceAt, List.map_cons, List.foldr_cons] at ih ⊢
+      rw [ih]
+      simp only [Lcapy.Laplace.L, Lcapy.Laplace.Term.L, EPTerm.toLaplace, pw_eq_npow, CQ.sub_neg', CQ.mul_one']
+      rfl
 
 
 end Lcapy.Fourier
